@@ -25,14 +25,18 @@ def generate(rng, tier, i):
     used = {P1, P2, X}
     cas = []
     for _ in range(rng.choice([0, 1, 2, 3])):
-        kind = rng.choice(['normal', 'normal', 'claimed', 'none', 'veto', 'cannot'])
+        # 'bypass_lost': a CA created with bypass_address_claim=True that later loses its address to a lower NAME (it ends in
+        # cannot-claim, or on the next address if it is arbitrary-address-capable)
+        kind = rng.choice(['normal', 'normal', 'claimed', 'none', 'veto', 'cannot', 'bypass_lost'])
         while True:
-            a = rng.randrange(130, 240) if kind in ('veto', 'cannot') else (rng.randrange(0, 120) if kind == 'claimed' else rng.choice([rng.randrange(0, 254), 0, 253, 128, 0xCA]))
-            if a not in used:
+            a = rng.randrange(130, 240) if kind in ('veto', 'cannot', 'bypass_lost') else (rng.randrange(0, 120) if kind == 'claimed' else rng.choice([rng.randrange(0, 254), 0, 253, 128, 0xCA]))
+            if a not in used and (kind != 'bypass_lost' or a + 1 not in used):
                 used.add(a)
+                if kind == 'bypass_lost':
+                    used.add(a + 1)
                 break
         aac = 0 if kind == 'cannot' else rng.getrandbits(1)
-        cas.append({'addr': a, 'name': ((rng.getrandbits(62) | (1 << 41)) & ~(1 << 48)) | (aac << 63), 'bypass': kind == 'normal', 'kind': kind})
+        cas.append({'addr': a, 'name': ((rng.getrandbits(62) | (1 << 41)) & ~(1 << 48)) | (aac << 63), 'bypass': kind in ('normal', 'bypass_lost'), 'kind': kind})
     el = []
     for _ in range(rng.choice([0, 1, 1, 2, 3])):
         k = rng.random()
@@ -69,7 +73,7 @@ def execute(scn, keep_log=False, hook=None):
         ca = st.cas[k]
         if c['kind'] in ('claimed', 'veto', 'cannot'):
             ca.start(0)
-        if c['kind'] == 'cannot':
+        if c['kind'] in ('cannot', 'bypass_lost'):
             nv = (c['name'] & ((1 << 63) - 1)) >> 1
             sim.at(base + 20_000_000, (lambda a=c['addr'], nv=nv: bus.send('X', rc.make_id(6, 0, rc.PF_ADDRESS_CLAIM, 255, a), True, nv.to_bytes(8, 'little'))), 'op')
     for a in scn.get('ghost_listeners', []):
